@@ -268,7 +268,7 @@ def run_impl(ck, ops, trunc):
         fe.close()
         lines = [l for l in open(fo.name).read().splitlines() if l.strip()]
         if p.returncode != 0 or not lines:
-            raise RuntimeError("c08_impl failed: " + open(fe.name).read()[-2000:])
+            raise RuntimeError("c08_impl failed (rc=%s, %d output lines): %s" % (p.returncode, len(lines), open(fe.name).read()[-2000:]))
         d = json.loads(lines[-1])
         out["ops"] += d["ops"]
         out["truncate"] += d["truncate"]
@@ -509,7 +509,24 @@ def run(ck):
         aug = i % 2 == 1
         dd["notes"] = "size 5 \u00b5m, cost 3 \u20ac, rate \U0001d6fc; a&b <c> caf\u00e9" + (" @@CD@@ @@NC@@" if aug else "")
         trunc.append({"doc": dd, "offsets": ck.n(11, "all"), "augment": aug})
-    res = run_impl(ck, ops, trunc)
+    # the interpreter-configuration and many-failures runs go on beside the fault-injection shards (the main thread only
+    # waits for those and does not touch `ck` meanwhile)
+    import threading
+    import traceback as _tb
+
+    def side_runs():
+        try:
+            other_configurations(ck)
+            many_failures(ck)
+        except Exception:  # noqa: BLE001
+            ck.oblige("harness:C08:side-runs", False, _tb.format_exc()[-1500:], kind="harness")
+
+    side = threading.Thread(target=side_runs)
+    side.start()
+    try:
+        res = run_impl(ck, ops, trunc)
+    finally:
+        side.join()
     cases = []  # (coq text, python description)
     for o in res["ops"]:
         if "harness_error" in o:
@@ -612,8 +629,6 @@ def run(ck):
                         "observation not among the predictions for a fault at %s" % chunk[j][1]["sites"],
                         {"observed(raised,left_open,doc_changed)": chunk[j][1]["observed"], "statement": chunk[j][1]["statement"]})
     ck.extra["fault_cases_compared_with_model"] = len(cases)
-    other_configurations(ck)
-    many_failures(ck)
     # ---------------------------------------------------------------- truncation
     tcases = []
     for t in res["truncate"]:
